@@ -347,9 +347,9 @@ theorem lexToken_amp_cont (k : CaseCont) (x : List Char) :
 theorem tailOk_cont (k : CaseCont) (x : List Char) (sp : Bool) :
     TailOk ((if sp then [' '] else []) ++ (k.str ++ ' ' :: x)) := by
   cases k
-  · exact ⟨sp, ';', ';' :: ' ' :: x, by simp [CaseCont.str], Or.inl rfl⟩
-  · exact ⟨sp, ';', '&' :: ' ' :: x, by simp [CaseCont.str], Or.inl rfl⟩
-  · exact ⟨sp, ';', '|' :: ' ' :: x, by simp [CaseCont.str], Or.inl rfl⟩
+  · exact Or.inr ⟨sp, ';', ';' :: ' ' :: x, by simp [CaseCont.str], Or.inl rfl⟩
+  · exact Or.inr ⟨sp, ';', '&' :: ' ' :: x, by simp [CaseCont.str], Or.inl rfl⟩
+  · exact Or.inr ⟨sp, ';', '|' :: ' ' :: x, by simp [CaseCont.str], Or.inl rfl⟩
 
 theorem contOp_facts (k : CaseCont) :
     (contOp k).plain = true ∧ contOp k ∉ contOps ∧ contOp k ≠ .semicolon ∧ contOp k ≠ .and ∧
